@@ -15,7 +15,7 @@ import (
 )
 
 func init() {
-	register("C14", "Decides structural conditions of 'validated queries cannot go wrong and responses match the advertised schema': every type switch over graphql.Type in the module (validation, execution, introspection, federation) covers all output kinds or ends in an error/panic default; validation (prepareQuery) and execution (resolveBatch) partition the kinds the same way (leaf kinds reject selections, composite kinds require them, wrappers unwrap); in prepareQuery every selection is __typename, or found in the type's Fields and validated recursively against that field's type on every path, or rejected with a client error - for objects and unions alike; resolver adapters return an error for a nil pointer under a NonNull type (plain and batch), and enum values outside ReverseMap fail; getType returns NonNull exactly for the Go shapes that cannot be nil (enum, value scalar, value struct, slice) and the bare type for pointer shapes; the scalar output table and the scalar argument-parser table have the same key set; the leaf and list resolvers settle every destination (no null where a list or scalar is advertised). Not decided: conformance of actual responses for all Go type shapes and queries.", c14)
+	register("C14", "Decides structural conditions of 'validated queries cannot go wrong and responses match the advertised schema': every type switch over graphql.Type in the module (validation, execution, introspection, federation) covers all output kinds or ends in an error/panic default; validation (prepareQuery) and execution (resolveBatch) partition the kinds the same way (leaf kinds reject selections, composite kinds require them, wrappers unwrap); in prepareQuery every selection is __typename, or found in the type's Fields and validated recursively against that field's type on every path, or rejected with a client error - for objects and unions alike; resolver adapters return an error for a nil pointer under a NonNull type (plain and batch), and enum values outside ReverseMap fail; getType returns NonNull exactly for the Go shapes that cannot be nil (enum, value scalar, value struct, slice) and the bare type for pointer shapes; the scalar output table and the scalar argument-parser table have the same key set; the leaf and list resolvers settle every destination (no null where a list or scalar is advertised); a nil pointer returned for a NonNull field is an error whatever the wrapped type. Not decided: conformance of actual responses for all Go type shapes and queries.", c14)
 }
 
 // typeSwitchesOverGraphqlType finds type switches whose operand has static type graphql.Type.
@@ -78,6 +78,10 @@ func c14(c *an.Ctx) {
 	})
 	c.Check("R-PAIR", "object fields exactly as selected, for union values: a member is resolved with the union-level selections (__typename) and every applicable fragment (rule shared with C01 and C19)", 2, func(o *an.O) {
 		ruleUnionMemberSelection(c, o)
+	})
+
+	c.Check("R-BOOL", "field-function adapter: a nil pointer returned for a NonNull field is an error whatever the wrapped type (evaluated under NonNull / pointer / nil / no error)", 1, func(o *an.O) {
+		ruleNonNullResultTable(c, o)
 	})
 
 	c.Check("R-POST", "lists where lists are advertised: the leaf and list resolvers settle every destination, a skipped one would be serialised as null (rule shared with C01)", 3, func(o *an.O) {
